@@ -36,11 +36,15 @@ def arbitrary_order(rnd, label):
     return "\n".join(L) + "\n"
 
 
+# the recorded input of the known finding (child promoted before its step-parent / ancestor across a gap): always replayed
+KNOWN_INPUT = "SCEN kf0\nmake localp 2 3 3 3 semi-localp 0\nbegin\ncandl -1 -1 classic 0\nloadpool 1 0 369473 1\nfinish\n"
+
+
 def run(ctx):
     rnd = random.Random(ctx.seed + 909)
     n = 220 if ctx.quick else 5000
     scens = [construction_history(rnd, "k%d" % i) for i in range(n)]
-    scens += [arbitrary_order(rnd, "a%d" % i) for i in range(n // 3)]
+    scens += [arbitrary_order(rnd, "a%d" % i) for i in range(n // 3)] + [KNOWN_INPUT]
     gen = gl.mc_and_scripts(ctx, ['seq', 'localp1', 'localp2', 'localpb', 'wavelet', 'globalcc', 'fourier'], rnd, 200 if ctx.quick else 4000, maxlen=None if ctx.quick else 5, genlen=3 if ctx.quick else 4, mc=True)
     gl.run_grid(ctx, gen + [("construct", scens)], gl.OBS_NODAL, "C09")
     ctx.assume("the spec promotes the largest admissible subset of all delivered samples after every delivery; since it is a function of the delivered set only, acceptance of every order/batching implies order independence")
